@@ -105,6 +105,7 @@ func genRoute(check string) func(r *Rng, tier string, p *Plan) {
 			}
 		}
 		p.N["api_slash"] = int64(PickOf(r, 0, 0, 0, 1))
+		p.N["cluster_name"] = int64(PickOf(r, 0, 0, 1))
 		p.SortOps()
 	}
 }
